@@ -142,6 +142,16 @@ def check_case(case):
             for j in range(nodes):
                 e = (float(G[i][j]) - lo) / (hi - lo)
                 require(abs(float(N[i][j]) - e) <= 1e-12 * (1 + abs(e)), "get_distances:min_max_normalised", lambda: "entry (%d,%d) %r expected %r" % (i, j, float(N[i][j]), e))
+    # the pre-computed model reports the same matrix (it holds the features too), and reporting must not disturb the loaded file matrix
+    GA = np.asarray(libcall(A.get_distances))
+    require(GA.shape == G.shape and all(float(GA[i][j]) == float(G[i][j]) for i in range(nodes) for j in range(nodes)), "get_distances:pre_computed_model_agrees", "get_distances() of the pre-computed model differs from the on-the-fly model's")
+    if hi > lo:
+        NA = np.asarray(libcall(A.get_distances, normalize=True))
+        require(all(abs(float(NA[i][j]) - (float(G[i][j]) - lo) / (hi - lo)) <= 1e-12 * (1 + abs(float(NA[i][j]))) for i in range(nodes) for j in range(nodes)), "get_distances:pre_computed_model_agrees", "normalised matrix of the pre-computed model differs")
+        GA2 = np.asarray(libcall(A.get_distances))
+        require(all(float(GA2[i][j]) == float(G[i][j]) for i in range(nodes) for j in range(nodes)), "get_distances:repeatable", "get_distances() changed after a normalised call")
+    la = np.asarray(A.pre_distances)
+    require(la.shape == loaded.shape and all(float(la[i][j]) == ref[i][j] for i in range(len(data)) for j in range(len(data))), "get_distances:leaves_loaded_matrix_intact", "the loaded pre-computed matrix was modified by get_distances()")
     # ... and a model that is re-fitted on another subset of the same size reports the NEW training set's matrix
     if len(It) >= 2 and case["model"] in ("sup", "unsup"):
         It2 = It[1:] + It[:1]
